@@ -532,6 +532,36 @@ func runSharedWrite(p *Program, r *RuleResult) {
 					addr = x.Map
 				}
 				if addr == nil {
+					// the address of a field of a shared object that is neither loaded from nor
+					// navigated further nor handed to sync/atomic escapes: whoever receives it
+					// writes through it (fmt.Fprintf(&re.buf, …), Sscan(&re.x), a method with a
+					// pointer receiver)
+					fa, ok := in.(*ssa.FieldAddr)
+					if !ok || !isShared(fa.X.Type()) || fa.Referrers() == nil {
+						continue
+					}
+					ft := fa.Type().Underlying().(*types.Pointer).Elem()
+					if n := namedOf(ft); n != nil && n.Obj().Pkg() != nil && (n.Obj().Pkg().Path() == "sync" || n.Obj().Pkg().Path() == "sync/atomic") {
+						continue
+					}
+					for _, u := range *fa.Referrers() {
+						esc := false
+						switch x := u.(type) {
+						case *ssa.UnOp, *ssa.FieldAddr, *ssa.IndexAddr, *ssa.DebugRef:
+						case *ssa.Store:
+							esc = x.Val == ssa.Value(fa)
+						case ssa.CallInstruction:
+							esc = !isAtomicCall(x)
+						default:
+							esc = true
+						}
+						if esc {
+							_, f, _ := fieldNameOf(fa)
+							ord++
+							r.add(fnName(fn), fmt.Sprintf("address-escapes#%d-of-%s.%s", ord, namedOf(fa.X.Type()).Obj().Name(), f), Violated, p.instrPos(u),
+								fmt.Sprintf("the address of %s.%s leaves the expression (it is passed on or stored) in code that the process goroutines run: every process of the run shares that object, so concurrent steps write it without synchronisation (lost or torn updates)", namedOf(fa.X.Type()).Obj().Name(), f))
+						}
+					}
 					continue
 				}
 				nStores++
@@ -547,5 +577,138 @@ func runSharedWrite(p *Program, r *RuleResult) {
 		r.add("process (goroutine-reachable code)", "no-plain-store-into-shared-environment", Holds, "", fmt.Sprintf("%d functions reachable from goroutine entries, %d stores examined", nFn, nStores))
 	} else {
 		r.add("process (goroutine-reachable code)", "no-plain-store-into-shared-environment", Undecided, "", fmt.Sprintf("only %d goroutine-reachable functions found (at least 50 confirmed by hand)", nFn))
+	}
+}
+
+// R-MONITOR-CONFINED (C13): the monitor's tables belong to one goroutine.
+func init() {
+	ruleUsesCallGraph["R-MONITOR-CONFINED"] = true
+	register(&Rule{Name: "R-MONITOR-CONFINED", Min: 2,
+		Doc: "the map- and slice-typed fields of the monitor are touched only by functions that run on the monitor's own goroutine: all go statements whose target reaches such a function start the same entry function, and no function reachable from a process goroutine touches them (processes report to the monitor over its channel)",
+		Run: runMonitorConfined})
+}
+
+func runMonitorConfined(p *Program, r *RuleResult) {
+	mon := p.Named(processPkg, "Monitor")
+	touches := map[*ssa.Function]bool{}
+	for _, fn := range p.SrcFuncs {
+		if fn.Pkg == nil || fn.Pkg.Pkg.Path() != processPkg || fn.Blocks == nil {
+			continue
+		}
+		for _, b := range fn.Blocks {
+			for _, in := range b.Instrs {
+				fa, ok := in.(*ssa.FieldAddr)
+				if !ok {
+					continue
+				}
+				n := namedOf(fa.X.Type())
+				if n == nil || n.Obj() != mon.Obj() {
+					continue
+				}
+				if _, fresh := origin(fa.X).(*ssa.Alloc); fresh {
+					continue // the constructor fills the object it has just allocated
+				}
+				switch fa.Type().Underlying().(*types.Pointer).Elem().Underlying().(type) {
+				case *types.Map, *types.Slice:
+					touches[fn] = true
+				}
+			}
+		}
+	}
+	if len(touches) == 0 {
+		r.add("process.Monitor", "monitor-tables", Undecided, "", "no function touching a map or slice field of the monitor found")
+		return
+	}
+	g := p.VTA()
+	if useCHA {
+		g = p.CHA()
+	}
+	// does fn (through ordinary calls, not go statements) reach a function touching the tables?
+	memo := map[*ssa.Function]int{}
+	var reaches func(fn *ssa.Function) bool
+	reaches = func(fn *ssa.Function) bool {
+		if fn == nil {
+			return false
+		}
+		if v, ok := memo[fn]; ok {
+			return v == 1
+		}
+		memo[fn] = 0
+		res := touches[fn]
+		if !res && fn.Blocks != nil {
+			for _, c := range p.callsIn(fn) {
+				if _, isGo := c.(*ssa.Go); isGo {
+					continue
+				}
+				for _, callee := range p.Callees(g, c) {
+					if reaches(callee) {
+						res = true
+					}
+				}
+			}
+			for _, an := range fn.AnonFuncs {
+				_ = an
+			}
+		}
+		if res {
+			memo[fn] = 1
+		}
+		return res
+	}
+	entries := map[*ssa.Function][]string{}
+	for _, fn := range p.SrcFuncs {
+		if !p.isFirstParty(fn) {
+			continue
+		}
+		for _, c := range p.callsIn(fn) {
+			if _, isGo := c.(*ssa.Go); !isGo {
+				continue
+			}
+			for _, t := range p.Callees(g, c) {
+				if reaches(t) {
+					entries[t] = append(entries[t], p.instrPos(c))
+				}
+			}
+		}
+	}
+	var names []string
+	for e := range entries {
+		names = append(names, fnName(e))
+	}
+	sort.Strings(names)
+	switch {
+	case len(entries) == 1:
+		r.add("process.Monitor", "one-owning-goroutine", Holds, "", fmt.Sprintf("every goroutine that reaches the monitor's tables starts in %s (%d functions touch the tables)", names[0], len(touches)))
+	case len(entries) == 0:
+		r.add("process.Monitor", "one-owning-goroutine", Undecided, "", "no goroutine entry reaches the monitor's tables")
+	default:
+		for e, where := range entries {
+			r.add(fnName(e), "one-owning-goroutine", Violated, where[0], fmt.Sprintf("goroutines with different entry functions (%v) reach the monitor's maps: they are read and written concurrently without synchronisation", names))
+		}
+	}
+	// process goroutines do not touch them
+	var pentries []*ssa.Function
+	for _, fn := range p.SrcFuncs {
+		if fn.Pkg == nil || fn.Pkg.Pkg.Path() != processPkg {
+			continue
+		}
+		for _, c := range p.callsIn(fn) {
+			if gg, ok := c.(*ssa.Go); ok {
+				if sc := gg.Common().StaticCallee(); sc != nil && sc.Signature.Recv() != nil && isNamed(sc.Signature.Recv().Type(), processPkg, "Process") {
+					pentries = append(pentries, sc)
+				}
+			}
+		}
+	}
+	bad := ""
+	for fn := range p.reachableFuncs(pentries, useCHA) {
+		if touches[fn] {
+			bad = fnName(fn)
+		}
+	}
+	if bad != "" {
+		r.add(bad, "processes-do-not-touch-monitor-tables", Violated, "", "a function that the process goroutines run accesses the monitor's maps directly instead of reporting over the monitor's channel")
+	} else {
+		r.add("process.Monitor", "processes-do-not-touch-monitor-tables", Holds, "", "")
 	}
 }
